@@ -162,8 +162,9 @@ def conf_s(draw, pid, tier):
     elif k == 1:
         # rules that upgrade an untrusted (~) ident to the claimed user name at acceptance time
         rules = [["r1", {"class": "c1", "hostname": "*.example.org", "trust_username": "yes"}], ["r2", {"class": "c2", "trust_username": "true"}]]
-    return {"modules": mods, "services": services, "timeout": timeout, "rules": rules,
-            "logs": [["*.>=info", "file:iauthd.log"]]}
+    # what is logged where must not matter to the protocol: sometimes every input line is logged (debug level)
+    logs = draw(st.sampled_from([[["*.>=info", "file:iauthd.log"]]] * 3 + [[["*.>=debug", "file:iauthd.log"]], [["*.*", "file:iauthd.log"]], []]))
+    return {"modules": mods, "services": services, "timeout": timeout, "rules": rules, "logs": logs}
 
 
 @st.composite
@@ -344,7 +345,9 @@ def table_growth_scenario(draw, conf):
     return ev
 
 
-EXTREME_IDS = [-2147483648, -2147483647, -2000000000, -1500000000, -2, 0, 5, 7, 1500000000, 2000000000, 2147483646, 2147483647]
+EXTREME_IDS = [-2147483648, -2147483647, -2000000000, -1500000000, -2, 0, 5, 7, 1500000000, 2000000000, 2147483646, 2147483647,
+               # ids that agree in their low 12 / 16 bits
+               4101, 8197, 65541, 4103]
 
 
 @st.composite
@@ -511,7 +514,7 @@ def conf_text(conf):
                           timeout=conf.get("timeout") or None,
                           services=[tuple(s) for s in conf.get("services", [])],
                           rules=rules, logs=[tuple(l) for l in conf.get("logs", [])],
-                          extra=conf.get("extra", ""))
+                          extra=conf.get("extra", ""), omit=tuple(conf.get("omit_sections", ())))
 
 
 class Trace:
